@@ -55,17 +55,15 @@ def main():
                                   stdout=subprocess.DEVNULL, stderr=subprocess.DEVNULL)
             # bring the finished build over (untracked build output), keep sources from HEAD
             subprocess.check_call(["rsync", "-a", "--ignore-existing", "--exclude", ".git", "/repo/", wt + "/"])
-            # libtool scripts and makefiles carry absolute /repo paths
-            subprocess.call("grep -rlI --exclude-dir=.git '/repo' %s | xargs -r sed -i 's#/repo#%s#g'" % (wt, wt), shell=True)
         os.makedirs(out, exist_ok=True)
-        anchors = p.get("anchors") or p.get("files") or []
-        if anchors and isinstance(anchors[0], dict):
-            files = ", ".join(sorted({a.get("file", "") for a in anchors}))
-        else:
-            files = ", ".join(anchors)
+        a = p.get("anchors") or {}
+        files = ", ".join(a.get("files", []))
+        mech = "; ".join("%s (%s)" % (m.get("name", ""), m.get("where", "")) for m in a.get("mechanism", []))
+        if mech:
+            files += "; mechanisms: " + mech
         txt = tmpl.format(wt=wt, out=out, id=pid, title=p.get("title", ""), statement=p.get("statement", ""),
-                          quant=p.get("quantified_over", p.get("quantification", "")),
-                          why=p.get("why_tests_insufficient", p.get("why_not_tests", "")),
+                          quant=(p.get("quantifier") or {}).get("text", ""),
+                          why=p.get("why_tests_cant", ""),
                           files=files, avoid=", ".join(changed_functions(pid)) or "(none)")
         open(os.path.join(WT, pid + ".prompt"), "w").write(txt)
         print(pid, "avoid:", ", ".join(changed_functions(pid)))
